@@ -29,7 +29,8 @@ def gen_pool_case(rng, bias=None, faults=True, max_tasks=12):
         "cancels": rng.choice([0, 0, 1, 2, 3, 5]),
         "bursts": rng.random() < 0.3,
         "bias": bias or {},
-        "exit_codes": rng.choice([[0, 0, 0, 0, 1, 2, 137], [0], [0, 0, 1], [0, 1, 1]]),
+        # negative codes: the task's own shell was killed by a signal from outside (OOM killer, kill -9 $$)
+        "exit_codes": rng.choice([[0, 0, 0, 0, 1, 2, 137, -9, -11], [0], [0, 0, 1], [0, 1, 1], [0, 0, -9, -15]]),
         "timeout_s": 10,
     }
 
